@@ -31,37 +31,123 @@ theorem sendResponse_frame (I : H11 H) (c : Conn H σ) (r : Resp) (id : Nat) :
       · simp
       · simp
 
+/-- the `Out.write`s of a transport log -/
+def writesOf (o : List Out) : List Out := o.filter Out.isWrite
+
+theorem writesOf_close (c : Conn H σ) : writesOf c.close.out = writesOf c.out := by
+  simp [writesOf, Conn.close, List.filter_append, List.filter, Out.isWrite]
+
+theorem respFirst_frame (I : H11 H) (c : Conn H σ) (r : Resp) (id : Nat) :
+    (respFirst I c r id).1.w = c.w ∧ (respFirst I c r id).1.closing = c.closing ∧
+    (respFirst I c r id).1.registered = c.registered ∧
+    (respFirst I c r id).1.overlapped = c.overlapped ∧
+    (respFirst I c r id).1.eoms = c.eoms ∧
+    (respFirst I c r id).1.consumed = c.consumed ∧
+    (respFirst I c r id).1.idle = c.idle ∧
+    (r.task = true → (respFirst I c r id).2 = true ∧
+      (respFirst I c r id).1.pending = some r ∧ (respFirst I c r id).1.pendingId = some id ∧
+      (respFirst I c r id).1.out = c.out ∧ (respFirst I c r id).1.answered = c.answered) ∧
+    (r.task = false →
+      (respFirst I c r id).1.pending = c.pending ∧ (respFirst I c r id).1.pendingId = c.pendingId ∧
+      ((respFirst I c r id).2 = true →
+        ∃ b, (respFirst I c r id).1.out = c.out ++ [.write b] ∧
+          (respFirst I c r id).1.answered = c.answered ++ [id]) ∧
+      ((respFirst I c r id).2 = false →
+        (respFirst I c r id).1.out = c.out ∧ (respFirst I c r id).1.answered = c.answered)) := by
+  have hs := sendResponse_frame I c r id
+  unfold respFirst
+  cases ht : r.task
+  · simp only [Bool.false_eq_true, if_false]
+    obtain ⟨h1, h2, h3, h4, h5, h6, h7, h8, h9, h10, h11⟩ := hs
+    exact ⟨h1, h2, h3, h4, h5, h8, h9, by simp, fun _ => ⟨h7, h6, h10, h11⟩⟩
+  · simp
+
+/-- `_process_response` differs from its first statement only in the parser, the session-key flag
+    and — when smuggled plaintext is found — by closing the connection. -/
+theorem processResponse_cases (I : H11 H) (c : Conn H σ) (r : Resp) (id : Nat) :
+    ((respFirst I c r id).2 = false ∧ processResponse I c r id = ((respFirst I c r id).1, .proto)) ∨
+    ((respFirst I c r id).2 = true ∧
+      ∃ h' e, (h' = (respFirst I c r id).1.h ∨ h' = (I.trailingData (respFirst I c r id).1.h).1) ∧
+        processResponse I c r id = ({ (respFirst I c r id).1 with h := h', encrypted := e }, .ok)) ∨
+    ((respFirst I c r id).2 = true ∧
+      processResponse I c r id
+        = ({ (respFirst I c r id).1 with
+              h := I.fresh (I.trailingData (respFirst I c r id).1.h).1, encrypted := true }.close, .smuggled)) := by
+  unfold processResponse
+  generalize respFirst I c r id = x
+  obtain ⟨c1, b⟩ := x
+  cases b
+  · left; simp
+  · right
+    simp only [Bool.not_true, Bool.false_eq_true, if_false]
+    cases r.sharedKey
+    · left; exact ⟨trivial, c1.h, c1.encrypted, Or.inl rfl, rfl⟩
+    · simp only [if_true]
+      cases he : c1.encrypted
+      · simp only [Bool.false_eq_true, if_false]
+        split
+        · rename_i h' heq
+          right; exact ⟨trivial, by rw [heq]⟩
+        · rename_i h' heq
+          left; exact ⟨trivial, h', true, Or.inr (by rw [heq]), rfl⟩
+      · left
+        refine ⟨trivial, c1.h, true, Or.inl rfl, ?_⟩
+        simp [← he]
+
 theorem processResponse_frame (I : H11 H) (c : Conn H σ) (r : Resp) (id : Nat) :
-    (processResponse I c r id).1.w = c.w ∧ (processResponse I c r id).1.closing = c.closing ∧
-    (processResponse I c r id).1.registered = c.registered ∧
+    (processResponse I c r id).1.w = c.w ∧
     (processResponse I c r id).1.overlapped = c.overlapped ∧
     (processResponse I c r id).1.eoms = c.eoms ∧
     (processResponse I c r id).1.consumed = c.consumed ∧
     (processResponse I c r id).1.idle = c.idle ∧
-    (r.task = true → (processResponse I c r id).2 = true ∧
+    ((processResponse I c r id).2 ≠ .smuggled →
+      (processResponse I c r id).1.closing = c.closing ∧ (processResponse I c r id).1.registered = c.registered) ∧
+    ((processResponse I c r id).2 = .smuggled →
+      (processResponse I c r id).1.closing = true ∧ (processResponse I c r id).1.registered = false) ∧
+    (r.task = true → (processResponse I c r id).2 ≠ .proto ∧
       (processResponse I c r id).1.pending = some r ∧ (processResponse I c r id).1.pendingId = some id ∧
-      (processResponse I c r id).1.out = c.out ∧ (processResponse I c r id).1.answered = c.answered) ∧
+      writesOf (processResponse I c r id).1.out = writesOf c.out ∧
+      (processResponse I c r id).1.answered = c.answered) ∧
     (r.task = false →
       (processResponse I c r id).1.pending = c.pending ∧ (processResponse I c r id).1.pendingId = c.pendingId ∧
-      ((processResponse I c r id).2 = true →
-        ∃ b, (processResponse I c r id).1.out = c.out ++ [.write b] ∧
+      ((processResponse I c r id).2 ≠ .proto →
+        ∃ b, writesOf (processResponse I c r id).1.out = writesOf c.out ++ [.write b] ∧
           (processResponse I c r id).1.answered = c.answered ++ [id]) ∧
-      ((processResponse I c r id).2 = false →
+      ((processResponse I c r id).2 = .proto →
         (processResponse I c r id).1.out = c.out ∧ (processResponse I c r id).1.answered = c.answered)) := by
-  have hs := sendResponse_frame I c r id
-  unfold processResponse
-  cases ht : r.task
-  · -- immediate answer
-    simp only [Bool.false_eq_true, if_false]
-    cases hok : (sendResponse I c r id).2
-    · simp only [hok] at hs
-      simp [hok, hs]
-    · obtain ⟨h1, h2, h3, h4, h5, h6, h7, h8, h9, h10, _⟩ := hs
-      obtain ⟨b, hb1, hb2⟩ := h10 hok
-      cases r.sharedKey <;> cases r.pairingChanged <;> simp [*]
-  · -- deferred
-    simp only [if_true]
-    cases r.sharedKey <;> cases r.pairingChanged <;> simp
+  obtain ⟨f1, f2, f3, f4, f5, f6, f7, ft, fn⟩ := respFirst_frame I c r id
+  rcases processResponse_cases I c r id with ⟨hb, he⟩ | ⟨hb, h', e, _, he⟩ | ⟨hb, he⟩
+  · rw [he]
+    refine ⟨f1, f4, f5, f6, f7, fun _ => ⟨f2, f3⟩, fun h => by simp at h, ?_, ?_⟩
+    · intro ht; rw [(ft ht).1] at hb; cases hb
+    · intro ht
+      obtain ⟨g1, g2, _, g4⟩ := fn ht
+      exact ⟨g1, g2, fun h => absurd rfl h, fun _ => g4 hb⟩
+  · rw [he]
+    refine ⟨f1, f4, f5, f6, f7, fun _ => ⟨f2, f3⟩, fun h => by simp at h, ?_, ?_⟩
+    · intro ht
+      obtain ⟨_, g2, g3, g4, g5⟩ := ft ht
+      exact ⟨by simp, g2, g3, by show writesOf (respFirst I c r id).1.out = _; rw [g4], g5⟩
+    · intro ht
+      obtain ⟨g1, g2, g3, _⟩ := fn ht
+      obtain ⟨b, hb1, hb2⟩ := g3 hb
+      refine ⟨g1, g2, fun _ => ⟨b, ?_, hb2⟩, fun h => by simp at h⟩
+      show writesOf (respFirst I c r id).1.out = _
+      rw [hb1]; simp [writesOf, List.filter_append, List.filter, Out.isWrite]
+  · rw [he]
+    refine ⟨f1, f4, f5, f6, f7, fun h => absurd rfl h, fun _ => ⟨rfl, rfl⟩, ?_, ?_⟩
+    · intro ht
+      obtain ⟨_, g2, g3, g4, g5⟩ := ft ht
+      refine ⟨by simp, g2, g3, ?_, g5⟩
+      rw [writesOf_close]
+      show writesOf (respFirst I c r id).1.out = _; rw [g4]
+    · intro ht
+      obtain ⟨g1, g2, g3, _⟩ := fn ht
+      obtain ⟨b, hb1, hb2⟩ := g3 hb
+      refine ⟨g1, g2, fun _ => ⟨b, ?_, hb2⟩, fun h => by simp at h⟩
+      rw [writesOf_close]
+      show writesOf (respFirst I c r id).1.out = _
+      rw [hb1]; simp [writesOf, List.filter_append, List.filter, Out.isWrite]
 
 /-! ### the accounting invariant (C19_one_response, registry) -/
 
@@ -113,6 +199,18 @@ theorem teardownStep_world (td : Teardown σ) (Q : World σ → Prop) (ht : ∀ 
     · rename_i w' hw; rw [hw] at this; exact this
   · exact h
 
+theorem finishPairStep_acct (c : Conn H σ) (r : Resp) (h : Acct c) : Acct (finishPairStep c r) := by
+  unfold finishPairStep
+  split
+  · exact ⟨h.order, h.count, h.pend, h.reg⟩
+  · exact h
+
+theorem finishPairStep_frame (c : Conn H σ) (r : Resp) :
+    (finishPairStep c r).w = c.w ∧ (finishPairStep c r).consumed = c.consumed ∧
+    (finishPairStep c r).closing = c.closing ∧ (finishPairStep c r).registered = c.registered := by
+  unfold finishPairStep
+  split <;> simp
+
 /-- what `_process_events` may rely on after one `_process_one_event` -/
 def StepOk (x : Conn H σ × Step) : Prop :=
   match x.2 with
@@ -133,49 +231,60 @@ theorem processResponse_acct (I : H11 H) (d : Conn H σ) (r : Resp) (id : Nat)
     (((processResponse I d r id).1.out.filter Out.isWrite).length
         = (processResponse I d r id).1.answered.length ∧
       (processResponse I d r id).1.pendingId.isSome = (processResponse I d r id).1.pending.isSome) ∧
-    ((processResponse I d r id).2 = true → Acct (processResponse I d r id).1) := by
-  obtain ⟨_, hcl, hrg, hovl, heo, _, _, ht, hnt⟩ := processResponse_frame I d r id
+    ((processResponse I d r id).2 ≠ .proto → Acct (processResponse I d r id).1) := by
+  obtain ⟨_, hovl, heo, _, _, hns, hsm, ht, hnt⟩ := processResponse_frame I d r id
+  simp only [writesOf] at ht hnt
   have hnone : d.overlapped = false → d.pendingId = none := by
     intro h
     cases hpe : d.pending with
     | some x => rw [hov (by simp [hpe])] at h; cases h
     | none => rw [hpe] at hp; simpa using hp
-  cases htask : r.task
-  · obtain ⟨h1, h2, h3, h4⟩ := hnt htask
-    cases hok : (processResponse I d r id).2
-    · obtain ⟨h5, h6⟩ := h4 hok
-      exact ⟨⟨by rw [h5, h6]; exact hc, by rw [h1, h2]; exact hp⟩, by simp⟩
-    · obtain ⟨b, hb1, hb2⟩ := h3 hok
-      have hcount : ((processResponse I d r id).1.out.filter Out.isWrite).length
-          = (processResponse I d r id).1.answered.length := by
-        rw [hb1, hb2]; simp [List.filter_append, List.filter, Out.isWrite, hc]
-      have hpend : (processResponse I d r id).1.pendingId.isSome
-          = (processResponse I d r id).1.pending.isSome := by rw [h1, h2]; exact hp
-      refine ⟨⟨hcount, hpend⟩, fun _ => ⟨?_, hcount, hpend, by rw [hcl, hrg]; exact hr⟩⟩
-      rw [hcl, hovl, heo, hb2, h2]
+  -- closing ⇒ unregistered, whatever the ending
+  have hreg : (processResponse I d r id).1.closing = true → (processResponse I d r id).1.registered = false := by
+    by_cases hs : (processResponse I d r id).2 = .smuggled
+    · exact fun _ => (hsm hs).2
+    · obtain ⟨h1, h2⟩ := hns hs
+      rw [h1, h2]; exact hr
+  -- the order clause, given the new `answered ++ pendingId`
+  have hord : ∀ (l : List Nat),
+      (d.overlapped = false → l = d.answered ++ d.pendingId.toList ++ [id]) →
+      (processResponse I d r id).1.closing = true ∨ (processResponse I d r id).1.overlapped = true ∨
+        l = List.range (processResponse I d r id).1.eoms := by
+    intro l hl
+    rw [hovl, heo]
+    by_cases hs : (processResponse I d r id).2 = .smuggled
+    · exact Or.inl (hsm hs).1
+    · rw [(hns hs).1]
       rcases ho with ho | ho | ho
       · exact Or.inl ho
       · exact Or.inr (Or.inl ho)
       · cases hov' : d.overlapped
-        · have hn := hnone hov'
-          rw [hn] at ho ⊢
-          exact Or.inr (Or.inr (by simpa using ho))
+        · exact Or.inr (Or.inr (by rw [hl hov']; exact ho))
         · exact Or.inr (Or.inl rfl)
+  cases htask : r.task
+  · obtain ⟨h1, h2, h3, h4⟩ := hnt htask
+    by_cases hok : (processResponse I d r id).2 = .proto
+    · obtain ⟨h5, h6⟩ := h4 hok
+      exact ⟨⟨by rw [h5, h6]; exact hc, by rw [h1, h2]; exact hp⟩, fun h => absurd hok h⟩
+    · obtain ⟨b, hb1, hb2⟩ := h3 hok
+      have hcount : ((processResponse I d r id).1.out.filter Out.isWrite).length
+          = (processResponse I d r id).1.answered.length := by
+        rw [hb1, hb2]; simp [hc]
+      have hpend : (processResponse I d r id).1.pendingId.isSome
+          = (processResponse I d r id).1.pending.isSome := by rw [h1, h2]; exact hp
+      refine ⟨⟨hcount, hpend⟩, fun _ => ⟨?_, hcount, hpend, hreg⟩⟩
+      rw [hb2, h2]
+      refine hord _ (fun hf => ?_)
+      rw [hnone hf]; simp
   · obtain ⟨hok, h1, h2, h3, h4⟩ := ht htask
     have hcount : ((processResponse I d r id).1.out.filter Out.isWrite).length
         = (processResponse I d r id).1.answered.length := by rw [h3, h4]; exact hc
     have hpend : (processResponse I d r id).1.pendingId.isSome
         = (processResponse I d r id).1.pending.isSome := by rw [h1, h2]; rfl
-    refine ⟨⟨hcount, hpend⟩, fun _ => ⟨?_, hcount, hpend, by rw [hcl, hrg]; exact hr⟩⟩
-    rw [hcl, hovl, heo, h4, h2]
-    rcases ho with ho | ho | ho
-    · exact Or.inl ho
-    · exact Or.inr (Or.inl ho)
-    · cases hov' : d.overlapped
-      · have hn := hnone hov'
-        rw [hn] at ho
-        exact Or.inr (Or.inr (by simpa using ho))
-      · exact Or.inr (Or.inl rfl)
+    refine ⟨⟨hcount, hpend⟩, fun _ => ⟨?_, hcount, hpend, hreg⟩⟩
+    rw [h4, h2]
+    refine hord _ (fun hf => ?_)
+    rw [hnone hf]; simp
 
 theorem processOneEvent_acct (I : H11 H) (disp : Disp σ) (td : Teardown σ) (c : Conn H σ) (h : Acct c) :
     StepOk (processOneEvent I disp td c) := by
@@ -218,7 +327,11 @@ theorem processOneEvent_acct (I : H11 H) (disp : Disp σ) (td : Teardown σ) (c 
         exact key.1
       · rename_i c' hpr
         rw [hpr] at key
-        have hA := teardownStep_acct td c' r (key.2 rfl)
+        have hA : Acct c' := key.2 (by simp)
+        exact ⟨hA.order, hA.count, hA.pend, hA.reg⟩
+      · rename_i c' hpr
+        rw [hpr] at key
+        have hA := finishPairStep_acct _ r (teardownStep_acct td c' r (key.2 (by simp)))
         exact ⟨hA.order, hA.count, hA.pend, hA.reg⟩
 
 /-- the accounting invariant after a callback, unless a non-protocol exception escaped -/
@@ -312,10 +425,17 @@ theorem processOneEvent_progress (I : H11 H) (disp : Disp σ) (td : Teardown σ)
       · rename_i c'' hpr
         rw [hpr] at hf
         cases hx
-        have h1 := hf.2.2.2.2.2.1
-        have h2 := teardownStep_consumed td c'' r
+        have h1 := hf.2.2.2.1
         simp only [] at h1
-        simp [h2, h1]
+        simp [h1]
+      · rename_i c'' hpr
+        rw [hpr] at hf
+        cases hx
+        have h1 := hf.2.2.2.1
+        have h2 := teardownStep_consumed td c'' r
+        have h3 := (finishPairStep_frame (teardownStep td c'' r) r).2.1
+        simp only [] at h1
+        simp [h3, h2, h1]
   | other => cases hx; simp [Conn.close]
   | _ => cases hx; simp
 
@@ -375,7 +495,12 @@ theorem processOneEvent_world (I : H11 H) (disp : Disp σ) (td : Teardown σ) (Q
         rw [hf]; exact hw'
       · rename_i c' hpr
         rw [hpr] at hf
-        show Q (teardownStep td c' r).w
+        show Q c'.w
+        rw [hf]; exact hw'
+      · rename_i c' hpr
+        rw [hpr] at hf
+        show Q (finishPairStep (teardownStep td c' r) r).w
+        rw [(finishPairStep_frame _ r).1]
         exact teardownStep_world td Q ht c' r (by rw [hf]; exact hw')
   | _ => exact h
 
@@ -439,17 +564,29 @@ theorem processOneEvent_reg (I : H11 H) (disp : Disp σ) (td : Teardown σ) (c c
       have hf := processResponse_frame I
         { c with h := h', idle := false, consumed := c.consumed + 1, eoms := c.eoms + 1,
                  overlapped := c.overlapped || c.pending.isSome, w := w' } r c.eoms
+      obtain ⟨_, _, _, _, _, hns, hsm, _, _⟩ := hf
       split at hx
       · rename_i c'' hpr
-        rw [hpr] at hf
+        rw [hpr] at hns
         cases hx
-        exact ⟨fun h => by rw [hf.2.1]; exact h, Or.inl hf.2.2.1⟩
+        obtain ⟨g1, g2⟩ := hns (by simp)
+        exact ⟨fun h => by rw [g1]; exact h, Or.inl g2⟩
       · rename_i c'' hpr
-        rw [hpr] at hf
+        rw [hpr] at hsm
         cases hx
-        have h1 : RegStep c c'' := ⟨fun h => by rw [hf.2.1]; exact h, Or.inl hf.2.2.1⟩
+        obtain ⟨g1, g2⟩ := hsm rfl
+        exact ⟨fun _ => g1, Or.inr ⟨g1, g2⟩⟩
+      · rename_i c'' hpr
+        rw [hpr] at hns
+        cases hx
+        obtain ⟨g1, g2⟩ := hns (by simp)
+        have h1 : RegStep c c'' := ⟨fun h => by rw [g1]; exact h, Or.inl g2⟩
         have h2 := teardownStep_reg td c'' r
-        exact ⟨fun h => h2.1 (h1.1 h), (h1.trans h2).2⟩
+        obtain ⟨_, _, f3, f4⟩ := finishPairStep_frame (teardownStep td c'' r) r
+        have h3 : RegStep (teardownStep td c'' r) (finishPairStep (teardownStep td c'' r) r) :=
+          ⟨fun h => by rw [f3]; exact h, Or.inl f4⟩
+        have h4 := (h1.trans h2).trans h3
+        exact ⟨h4.1, h4.2⟩
   | other => cases hx; exact ⟨fun _ => rfl, Or.inr ⟨rfl, rfl⟩⟩
   | _ => cases hx; exact ⟨id, Or.inl rfl⟩
 
@@ -588,5 +725,51 @@ theorem runCallbacks_acct (I : H11 H) (disp : Disp σ) (td : Teardown σ) (onLos
         cases b <;> simp
       | lost => exact connectionLost_acct onLost c h
     exact runCallbacks_acct I disp td onLost rest _ hA (fun o hm e => hne o (by simp [hm]) e)
+
+/-! ### a response without flags: `_process_response` is `send_response` and nothing else -/
+
+theorem processResponse_plain (I : H11 H) (c : Conn H σ) (r : Resp) (id : Nat)
+    (ht : r.task = false) (hk : r.sharedKey = false) :
+    (processResponse I c r id).1 = (sendResponse I c r id).1 ∧
+    (processResponse I c r id).2 = (if (sendResponse I c r id).2 then .ok else .proto) := by
+  unfold processResponse respFirst
+  simp only [ht, hk, Bool.false_eq_true, if_false]
+  cases (sendResponse I c r id).2 <;> simp
+
+theorem sendResponse_flags (I : H11 H) (c : Conn H σ) (r : Resp) (id : Nat) :
+    (sendResponse I c r id).1.encrypted = c.encrypted ∧ (sendResponse I c r id).1.finishPair = c.finishPair := by
+  unfold sendResponse
+  simp only []
+  split
+  · exact ⟨rfl, rfl⟩
+  · split
+    · exact ⟨rfl, rfl⟩
+    · split <;> exact ⟨rfl, rfl⟩
+
+/-- what `_process_one_event` does with a response that carries no flag at all: one write (or h11
+    refuses and nothing is written), nothing else of the connection object changes -/
+theorem respond_plain (I : H11 H) (td : Teardown σ) (d : Conn H σ) (r : Resp) (id : Nat)
+    (ht : r.task = false) (hk : r.sharedKey = false) (hr : r.pairingRemoved = false) (hc : r.pairingChanged = false) :
+    let x : Conn H σ × Step :=
+      match processResponse I d r id with
+      | (c', .proto) => (c', .proto)
+      | (c', .smuggled) => ({ c' with request := none, body := [] }, .cont true)
+      | (c', .ok) => ({ finishPairStep (teardownStep td c' r) r with request := none, body := [] }, .cont true)
+    x.1.w = d.w ∧ x.1.pending = d.pending ∧ x.1.encrypted = d.encrypted ∧ x.1.finishPair = d.finishPair ∧
+    x.1.closing = d.closing ∧ (x.1.out = d.out ∨ ∃ b, x.1.out = d.out ++ [.write b]) := by
+  obtain ⟨hp1, hp2⟩ := processResponse_plain I d r id ht hk
+  obtain ⟨s1, s2, _, _, _, _, s7, _, _, s10, s11⟩ := sendResponse_frame I d r id
+  obtain ⟨g1, g2⟩ := sendResponse_flags I d r id
+  generalize processResponse I d r id = y at hp1 hp2
+  obtain ⟨c1, res⟩ := y
+  simp only [] at hp1 hp2
+  subst hp1
+  cases hok : (sendResponse I d r id).2
+  · rw [hok] at hp2; simp only [Bool.false_eq_true, if_false] at hp2; subst hp2
+    exact ⟨s1, s7, g1, g2, s2, Or.inl (s11 hok).1⟩
+  · rw [hok] at hp2; simp only [if_true] at hp2; subst hp2
+    obtain ⟨b, o1, _⟩ := s10 hok
+    simp only [teardownStep, finishPairStep, hr, hc, Bool.false_eq_true, if_false]
+    exact ⟨s1, s7, g1, g2, s2, Or.inr ⟨b, o1⟩⟩
 
 end Hap.Http
